@@ -40,6 +40,7 @@ class ClassDef:
     extra_body: str = ""
     slots: bool = False
     more_bases: tuple[str, ...] = ()  # multiple inheritance: further bases after `base`
+    abstract: bool = False  # has an unimplemented abstract method (cannot be instantiated)
 
 
 ANY = ("Base",)
@@ -125,6 +126,11 @@ TABLE: list[ClassDef] = [
                                 FieldDef("left", "Base | None", "opt", "None", classes=ANY)]),
     ClassDef("MixedRev", "Base", [FieldDef("items", "Base | None", "opt", "None", classes=ANY),
                                   FieldDef("child", "tuple[Base, ...]", "tuple", "()", classes=ANY)]),
+    # an abstract node base class (ABCMeta + abstract method) and a concrete implementation
+    ClassDef("AbsNode", "Base", [FieldDef("v", "int", "int", "0")], more_bases=("abc.ABC",), abstract=True,
+             extra_body="    @abc.abstractmethod\n    def kind(self) -> str:\n        ...\n"),
+    ClassDef("AbsImpl", "AbsNode", [FieldDef("kid", "Base | None", "opt", "None", classes=ANY)],
+             extra_body="    def kind(self) -> str:\n        return \"impl\"\n"),
     # multiple inheritance: two bases with their own fields and an empty class combining them
     ClassDef("TagA", "Base", [FieldDef("ta", "int", "int", "0")]),
     ClassDef("TagB", "Base", [FieldDef("tb", "str", "str", '""'), FieldDef("kid", "Base | None", "opt", "None", classes=ANY)]),
@@ -151,7 +157,8 @@ def _linearize(name: str) -> list[str]:
     if name == "ASTNode":
         return []
     c = BY_NAME[name]
-    seqs = [_linearize(b) for b in (c.base, *c.more_bases)] + [[b for b in (c.base, *c.more_bases) if b != "ASTNode"]]
+    bases = [b for b in (c.base, *c.more_bases) if b == "ASTNode" or b in BY_NAME]
+    seqs = [_linearize(b) for b in bases] + [[b for b in bases if b != "ASTNode"]]
     out = [name]
     seqs = [s for s in seqs if s]
     while seqs:
@@ -204,6 +211,7 @@ def concrete_subclasses(names: tuple[str, ...]) -> list[str]:
 
 
 HEADER = '''\
+import abc
 import enum
 from dataclasses import dataclass, field
 from pathlib import Path
@@ -316,6 +324,8 @@ def warm(order: str) -> None:
         return
     names = CLASS_NAMES if order == "bases" else list(reversed(CLASS_NAMES))
     for name in names:
+        if BY_NAME[name].abstract:
+            continue
         c = cls(name)
         kw = {}
         if name == "Uni":
